@@ -2,6 +2,8 @@ import Rustemo.Model.Dump
 import Rustemo.Model.Print
 import Rustemo.Model.Cert
 import Rustemo.Driver.Regen
+import Rustemo.Driver.Cli
+import Rustemo.Model.Canon
 /-!
 Line-protocol driver: one request per line on stdin, one answer per line on stdout.
 
@@ -32,6 +34,13 @@ def handle (st : DState) (line : String) : DState × String :=
       (st, if Cert.structural st.dump.grammar st.dump.table (natOf a) (natOf b) then "1" else "0")
     | ["noshiftstop"] => (st, if Cert.noShiftStop st.dump.table then "1" else "0")
     | _ => (st, "bad-request")
+  | "cover" =>
+    match fields rest with
+    | [s0, aug, rn] =>
+      let r := Cover.check st.dump.grammar st.dump.table (natOf s0) (natOf aug) (rn == "1") 5000
+      (st, (if r.ok then "ok" else "fail") ++ s!" pairs={r.pairs} canon={r.canonStates} {r.why}")
+    | _ => (st, "bad-request")
+  | "cli" => (st, handleCli rest)
   | "regen" => (st, Rustemo.Regen.handleRegen rest)
   | "rawdet" => (st, if st.dump.table.rawDeterministic st.dump.grammar then "1" else "0")
   | "lr" =>
